@@ -21,6 +21,11 @@ PROPS = {
         'kani': [],
         'assumptions': [IDS_NONZERO, NOW, STD, 'guards are !Send (type level: they hold an Rc) so a scope cannot leave its thread'],
     },
+    'C20': {
+        'verus': [('jaeger', '*')],
+        'kani': [],
+        'assumptions': ['JaegerReporter::convert + serialize produce, for a slice of records, bytes whose length is a function of that slice only (enc_len); what the bytes contain is C19', 'UdpSocket::send_to sends exactly the buffer it is given as one datagram (OS)', 'ghost log: every send in try_report goes through the logged wrapper (the raw send_to stub has `requires false`)'],
+    },
     'C04': {
         'verus': [('spsc', ['Sender::force_send', 'Sender::send', 'bounded', 'Receiver::try_recv'])],
         'kani': [],
